@@ -161,6 +161,8 @@ func storeCase(t *testing.T, run *core.Run, p *pool, name string, rng *rand.Rand
 	nontrivial := false
 	valCounter := 0
 	batchSizes := []int{1, 2, 15, 16, 17, 40, 120}
+	var snaps []map[string][]byte // state after each committed version
+	rolledBack := false
 	apply := func(s lib.RWStoreI, m map[string][]byte, n int, record bool) {
 		for j := 0; j < n; j++ {
 			k := uni[rng.Intn(len(uni))]
@@ -288,9 +290,30 @@ func storeCase(t *testing.T, run *core.Run, p *pool, name string, rng *rand.Rand
 			run.Count("batches_over_parallel_threshold", 1)
 		}
 		if !bytes.Equal(root, want) {
-			run.Violation(fmt.Sprintf("root-mismatch path=store-commit batch>=16:%v", n >= 16), name,
+			run.Violation(fmt.Sprintf("root-mismatch path=store-commit batch>=16:%v rolled-back-before:%v", n >= 16, rolledBack), name,
 				map[string]any{"history": hist, "got": core.Hex(root), "want": core.Hex(want), "set_size": len(model)})
 			return
+		}
+		snap := make(map[string][]byte, len(model))
+		for k, v := range model {
+			snap[k] = v
+		}
+		snaps = append(snaps, snap)
+		// a rollback to an earlier height: the heights committed after it are discarded; what is committed next must again
+		// be the commitment of its key/value set alone (nothing of the discarded heights may remain in the tree)
+		if len(snaps) >= 3 && rng.Intn(4) == 0 {
+			target := 1 + rng.Intn(len(snaps)-1) // version numbers start at 1
+			if err := st.Rollback(uint64(target)); err != nil {
+				t.Fatalf("rollback to %d: %v", target, err)
+			}
+			snaps = snaps[:target]
+			model = map[string][]byte{}
+			for k, v := range snaps[target-1] {
+				model[k] = v
+			}
+			rolledBack = true
+			run.Count("rollbacks", 1)
+			hist = append(hist, opRec{Op: "rollback", N: target})
 		}
 	}
 	run.Eval(1)
